@@ -741,6 +741,8 @@ fn run_history(w: &mut Worker, plan: &Plan, zone: usize, hist: &[usize], only: O
 }
 
 fn main() {
+    // a stack overflow / abort in the code under test must become a verdict, not a dead check
+    vcore::supervise("C14");
     let ctx = Ctx::from_args("C14", "fault_enumeration");
     let thorough = !ctx.quick();
     // one work unit is a few hundred real exchanges; leave room for a heavily loaded machine
